@@ -5,6 +5,7 @@
 #include <cstddef>
 #include <cstdint>
 #include <cstring>
+#include <initializer_list>
 #include <type_traits>
 #include <utility>
 #if __cplusplus >= 202002L
@@ -180,6 +181,14 @@ struct Tracked : std::conditional<KIND == 0, DeclaresRelocatable, DeclaresNothin
     pay = p;
     born(EV_VCTOR);
   }
+  // The standard containers direct-initialise the element of an emplace: T(args...). A library that list-initialises it, T{args...}, selects this
+  // constructor instead of (int, unsigned) - as it would for std::vector<int>{2, 7} or std::string{n, 'a'} - and the value is not the expected one.
+  Tracked(std::initializer_list<long long> il) {
+    fault_point();
+    key = -4242;
+    pay = static_cast<uint32_t>(il.size());
+    born(EV_VCTOR);
+  }
   // construction "from a reference to an element" (C10 emplace(pos, &v[src]))
   explicit Tracked(const Tracked *p) {
     fault_point();
@@ -321,6 +330,7 @@ struct TC4 {
   uint16_t pay;
   TC4() = default;
   TC4(int k, unsigned p) : key(static_cast<int16_t>(k)), pay(static_cast<uint16_t>(p)) {}
+  TC4(std::initializer_list<long long> il) : key(-4242), pay(static_cast<uint16_t>(il.size())) {}  // selected by T{k, p}: emplace must direct-initialise
   explicit TC4(const TC4 *p) : key(p->key), pay(p->pay) {}
   bool operator==(const TC4 &o) const { return key == o.key; }
   bool operator!=(const TC4 &o) const { return key != o.key; }
@@ -371,6 +381,7 @@ struct TC8 {
   uint32_t pay;
   TC8() = default;
   TC8(int k, unsigned p) : key(k), pay(p) {}
+  TC8(std::initializer_list<long long> il) : key(-4242), pay(static_cast<uint32_t>(il.size())) {}  // selected by T{k, p}: emplace must direct-initialise
   explicit TC8(const TC8 *p) : key(p->key), pay(p->pay) {}
   bool operator==(const TC8 &o) const { return key == o.key; }
   bool operator!=(const TC8 &o) const { return key != o.key; }
